@@ -1101,7 +1101,19 @@ func main() {
 			cases = append(cases, &caseOut{Name: p.Name, Prop: *prop, Def: p, Play: cfg})
 		}
 	case "c07":
-		for _, p := range genC07(rng, *tier) {
+		plays := genC07(rng, *tier)
+		if *tier == "thorough" {
+			// three more rounds of the fast faults with fresh random instants
+			for rep := 0; rep < 3; rep++ {
+				for _, p := range genC07(rng, *tier) {
+					if !strings.Contains(p.Fault, "hangs") {
+						p.Name = fmt.Sprintf("c07-%d-%s-%s", len(plays), p.Fault, p.FaultPos)
+						plays = append(plays, p)
+					}
+				}
+			}
+		}
+		for _, p := range plays {
 			cfg, errs := compile(p)
 			if cfg == nil {
 				panic("c07 configuration rejected: " + errs + "\n" + p.render("/tmp/ledger"))
